@@ -13,10 +13,75 @@ PROPS = {
         required_theorems=["AlphaG.Trg.trg_accept_iff", "AlphaG.Trg.trg_fields", "AlphaG.Trg.trg_ordering",
                            "AlphaG.Trg.trg_roundtrip", "AlphaG.Trg.trg_total", "AlphaG.Trg.trg_len"],
         harness=[("c06", ["dev"])],
+        level_text="Lean theorems over all byte strings: accept iff documented layout (trg_accept_iff), every accessor "
+                   "equals its little-endian field (trg_fields), counter ordering, exact 80-byte round trip, totality; the "
+                   "model is tied to the Rust decoder by a differential run on every check.",
+        level_note="Trusted: Lean kernel + {propext, Classical.choice, Quot.sound}; the hand-written model of "
+                   "TrgV3Packet::try_from is validated against the real decoder by sampling (boundary words, all 640 bit "
+                   "flips, counter orderings, lengths), not proved equal to it.",
+        technique="Lean 4 theorems over a hand-written model + differential correspondence check",
+        design_ref="DESIGN.md section 6, C06",
         rule="generators: valid builder, per-word boundary substitution, all 640 single-bit flips, all 81 "
              "orderings/ties of the four counters, header/footer/output agreement matrix, lengths 0..=160, random; "
              "a case is distinct by its request line; all are non-trivial (each exercises the real decoder and the model)",
         assumptions=["the model's decode/encode are compared with TrgPacket::try_from and an independent "
                      "re-encoder of the accessors on every generated case; error variants are compared too"],
+    ),
+    "C19": dict(
+        lean_modules=["AlphaG.Props.C19"],
+        required_theorems=["AlphaG.Csv.rows_one_per_main", "AlphaG.Csv.undecodable_row_empty",
+                           "AlphaG.Csv.other_events_no_row", "AlphaG.Csv.time_diff",
+                           "AlphaG.Csv.arg_order_irrelevant", "AlphaG.Csv.refused_mixed_runs",
+                           "AlphaG.Csv.refused_duplicate_t0", "AlphaG.Csv.refused_unknown_extension"],
+        harness=[("c19", ["dev"])],
+        level_text="Lean theorems on the row logic for runs of any size: one row per main event in order with its serial "
+                   "(rows_one_per_main), empty time exactly for undecodable events, counts of decodable events differ by the "
+                   "sum of 32-bit-wrapped timestamp differences (time_diff), argument order irrelevant, refusals. The real "
+                   "binaries are run on generated MIDAS files on every check and their CSVs compared with the model and "
+                   "with an independent oracle (incl. byte-identical output across thread counts).",
+        level_note="Partial: the theorems are about the model of sort_run_files and of the scan; that the binaries "
+                   "implement it (file reading, midasio, rayon ordering, csv formatting) is established by end-to-end "
+                   "differential runs, not proved. Schedules are sampled (RAYON_NUM_THREADS in {1,2,5,16}).",
+        technique="Lean 4 theorems over a hand-written model + end-to-end differential check of the real binaries",
+        design_ref="DESIGN.md section 6, C19",
+        needs_binaries=True,
+        disagreement_is_failing_input=False,
+        rule="each case is one generated run (1..4 MIDAS files, .mid/.mid.lz4, 0..60 events each, main/chronobox/"
+             "sequencer/other ids interleaved, TRG timestamps crossing 2^32, undecodable events of 7 kinds) pushed "
+             "through the real alpha-g-vertices (thread counts 1,2,5,16, permuted arguments) and alpha-g-trg-scalers, "
+             "plus refusal runs (mixed run numbers, duplicate initial timestamp, unknown extension); distinct by request line",
+        assumptions=["midasio, lz4, csv, clap and rayon are trusted (exercised, not modelled)",
+                     "the MIDAS writer of the harness follows midasio 0.5.3's reader",
+                     "vertex columns are compared with MainEvent::vertex() called in-process on the same banks"],
+        trusted_extra=["the real binaries are run as processes; their CSVs are parsed by the harness"],
+    ),
+    "C20": dict(
+        lean_modules=["AlphaG.Props.C20"],
+        required_theorems=["AlphaG.Csv.cbtime_correct", "AlphaG.Csv.cbtime_wrong_side_late",
+                           "AlphaG.Csv.cbtime_wrong_side_early", "AlphaG.Csv.cbtime_none_iff",
+                           "AlphaG.Csv.never_wrong", "AlphaG.Csv.rows_complete",
+                           "AlphaG.Csv.fails_closed_remainder", "AlphaG.Csv.fails_closed_no_epoch0",
+                           "AlphaG.Csv.fails_closed_first_marker", "AlphaG.Csv.boardRows_total"],
+        harness=[("c20", ["dev"])],
+        level_text="Lean theorems against an independent hardware model, for any tick and any marker counter: an edge in its "
+                   "own marker interval gets its true time (cbtime_correct), displaced edges get none, never a wrong time "
+                   "whatever two hardware markers enclose it (never_wrong), exact characterisation of empty times, one row per "
+                   "timestamp after the counter-0 marker (rows_complete), fails closed, no panic. The real binary is run on "
+                   "hardware-model streams with every cut pattern and single fault on every check.",
+        level_note="Partial: the theorems are about the model of chronobox_time and of the row loop; the binary is tied by "
+                   "end-to-end differential runs (sampled), not proved. FIFO parsing itself is C07. Repaired defect F3 "
+                   "(last timestamp dropped) is reported again if it returns.",
+        technique="Lean 4 theorems over a hand-written model + end-to-end differential check of the real binary",
+        design_ref="DESIGN.md section 6, C20",
+        needs_binaries=True,
+        disagreement_is_failing_input=False,
+        rule="each case is one board of one generated run: hardware-model FIFO streams (0..8 wraps, 1..4 boards, "
+             "edges within 3 ticks of markers and displaced across them, scaler blocks whose payload imitates words) cut "
+             "at arbitrary byte positions into CBFn banks / events / files, plus single faults (dropped marker, duplicated "
+             "marker, truncated tail, corrupted word, missing counter-0 marker, first marker top bit, incomplete scalers "
+             "block), run through the real alpha-g-chronobox-timestamps; distinct by request line",
+        assumptions=["hardware model as stated in the property text and in Props/C20.lean's header",
+                     "midasio, lz4, csv, clap are trusted (exercised, not modelled)"],
+        trusted_extra=["the real binary is run as a process; its CSV is parsed by the harness"],
     ),
 }
